@@ -99,3 +99,12 @@ def rules(t):
             for v_ in x_.violations: rr_.bad(v_.key, v_.site, v_.msg)
     out.append(rr_)
     return out
+
+_rules_c11_w5 = rules
+def rules(t):
+    import rules.shared as shared
+    out = _rules_c11_w5(t)
+    shared.share(t, out, "C11.h", "a connection's channel budget does not leak when the shared tick budget (used up by another channel) makes it drop a message: every element leaving a send queue is released", "C09", ("C09.f",))
+    shared.share(t, out, "C11.i", "a broadcast is obtained once per client: an unordered message is buffered only behind the received_messages test", "C02", ("C02.a",))
+    shared.share(t, out, "C11.j", "traffic is attributed to one session per client id: the slot fill is behind the already-connected test on the id", "C10", ("C10.a1",))
+    return out
